@@ -1,9 +1,70 @@
 import OdcGeo.Model.C08
 namespace OdcGeo.C08.Drv
-open OdcGeo OdcGeo.IO
+open OdcGeo OdcGeo.IO OdcGeo.C08
+
+def parsePt? (s : String) : Option (Rat × Rat) :=
+  match (s.splitOn ";").mapM parseRat? with
+  | some [x, y] => some (x, y)
+  | _ => none
+
+/-- `e:edge|center|floating`, `x:<x>;<y>` (an XY), `n:<v>` (a number), `s:<name>` -/
+def parseAnchor? (s : String) : Option AnchorArg :=
+  match s.splitOn ":" with
+  | ["e", "edge"] => some (.val .edge)
+  | ["e", "center"] => some (.val .center)
+  | ["e", "floating"] => some (.val .floating)
+  | ["x", p] => (parsePt? p).map fun q => .val (.xy q.1 q.2)
+  | ["n", v] => (parseRat? v).map .num
+  | ["s", "center"] => some (.name .center)
+  | ["s", "centre"] => some (.name .centre)
+  | ["s", "edge"] => some (.name .edge)
+  | ["s", "floating"] => some (.name .floating)
+  | ["s", "default"] => some (.name .default)
+  | _ => none
+
+def fmtAnchor : Anchor → String
+  | .edge => "edge"
+  | .center => "center"
+  | .floating => "floating"
+  | .xy x y => s!"xy:{fmtRat x};{fmtRat y}"
+
+def parseShape? (s : String) : Option ShapeArg :=
+  match s.splitOn ":" with
+  | ["N"] => some .none
+  | ["i", n] => (parseInt? n).map .int
+  | ["yx", p] =>
+    match (p.splitOn ";").mapM parseInt? with
+    | some [ny, nx] => some (.yx ny nx)
+    | _ => none
+  | _ => none
+
+def parseRes? (s : String) : Option ResArg :=
+  match s.splitOn ":" with
+  | ["N"] => some .none
+  | ["s", r] => (parseRat? r).map .scalar
+  | ["xy", p] => (parsePt? p).map fun q => .xy q.1 q.2
+  | _ => none
+
+def fmtGeoBox (g : GeoBox) : String := s!"{g.ny} {g.nx} {fmtAff g.affine}"
 
 def run (args : List String) : Option String :=
   match args with
+  | ["anchor", a] => do
+    let a ← parseAnchor? a
+    pure (fmtAnchor (normAnchor a))
+  | ["bbox", l, b, r, t, tight, shape, res, anchor, tol] => do
+    let l ← parseRat? l; let b ← parseRat? b; let r ← parseRat? r; let t ← parseRat? t
+    let tight ← parseBool? tight; let shape ← parseShape? shape; let res ← parseRes? res
+    let anchor ← parseAnchor? anchor; let tol ← parseRat? tol
+    pure (fmtRes fmtGeoBox (fromBbox ⟨l, b, r, t⟩ tight shape res anchor tol))
+  | ["poly", pts, res, align, shape, tight, anchor, tol] => do
+    let pts ← parseList? parsePt? pts
+    let res ← parseRes? res; let align ← parseOpt? parsePt? align
+    let shape ← parseShape? shape; let tight ← parseBool? tight
+    let anchor ← parseAnchor? anchor; let tol ← parseRat? tol
+    match pts with
+    | [] => none
+    | p :: ps => pure (fmtRes fmtGeoBox (fromGeopolygon p ps res align shape tight anchor tol))
   | _ => none
 
 end OdcGeo.C08.Drv
